@@ -12,6 +12,24 @@ for l in open('/verif/properties.jsonl'):
     props[p['id']] = p
 
 STEER = {
+ 'D': {
+  'C01': 'Prefer a breakage that is specific to ONE codec path (H.265 length-prefixing, AV1/VP9 pass-through, Opus vs AAC) or to one combination of metadata + audio + layout, so that all other configurations stay correct.',
+  'C02': 'Prefer a breakage in the fragmented INIT segment for one particular builder configuration (H.265 with VPS, AV1 sequence header, VP9 config, unusual parameter-set lengths) or in the user-data/metadata boxes of the progressive file.',
+  'C03': 'Prefer a well-meant "snap to the nominal frame duration" or "smooth the timestamps" change on the VIDEO track that is invisible for exact 30 fps input but accumulates drift for fractional rates (29.97, 23.976) or variable frame rate over many frames. No rejected calls involved.',
+  'C04': 'Prefer a breakage at the BUILDER level or in configuration handling: when build() succeeds or fails, AudioCodec::None, the alias methods, audio written to a muxer built in a particular way - depending on a particular combination or order of builder calls.',
+  'C05': 'Prefer a breakage where a rejected call changes something that is only visible LATER in an error value (frame_index, prev_pts / prev_dts fields of a later error), in the returned statistics, or in a later accept/reject decision - not in the file bytes of the common case.',
+  'C06': 'Prefer a breakage of the bytes_written accounting (or of the other statistics) that needs a particular configuration: metadata present, fast start on, zero frames, audio configured but unused.',
+  'C08': 'Prefer a breakage in which the language, the title/creation date (udta) or another header field ends up different in (or missing from) one of the two layouts under a particular metadata combination.',
+  'C09': 'On the current code the property is already known NOT to hold whenever the first audio timestamp differs from the first video timestamp (no edit list). Your change must break it in a DIFFERENT way that depends on the AUDIO CONFIGURATION (AAC profile, sample rate, channel count) - e.g. a duration derived from the configured sample rate - under a specific condition, even when both tracks start at the same time.',
+  'C10': 'Prefer a breakage that is specific to one codec\'s fragment configuration path, or to the caching of the init segment, or to very many samples in one fragment.',
+  'C11': 'Prefer a breakage that only shows for a FragmentConfig built directly with a timescale other than 90000 or an unusual fragment_duration_ms, or for decode times above 2^32.',
+  'C12': 'Prefer a panic or hang in the FRAGMENTED muxer, in MuxerBuilder::new_with_fragment, or in the validation module, for extreme but type-correct arguments (huge counts, zero, u32::MAX / u64::MAX, NaN).',
+  'C13': 'Prefer a breakage that differs between the fast-start and the standard layout, or that depends on HOW MANY bytes the sink had accepted before it failed.',
+  'C15': 'Prefer a breakage in the interplay of REORDERED video (write_video_with_dts, pts != dts) with an audio track: which timestamp positions a video sample relative to audio, for particular GOP patterns.',
+  'C16': 'Prefer a breakage in the sample-size, chunk-offset or box-size fields of the progressive file, or in tfdt / trun data_offset of the fragmented muxer, for values at the edge of their fields.',
+  'C17': 'Prefer a breakage where the output depends on the SINK TYPE or its initial state: BufWriter vs unbuffered, a Cursor not at position 0, a Vec that already holds bytes, a sink whose write() is called with different chunking.',
+  'C20': 'Prefer a breakage in the handling of the AUDIO options of mux (codec names and aliases, case-insensitivity, defaults when --audio-codec / --video-codec are omitted, sample rate / channels validation).',
+ },
  'C': {
   'C01': 'Prefer a breakage of the SYNC-SAMPLE flags (stss), of the AAC/Opus payload framing (ADTS header stripping with or without CRC, trailing bytes in the buffer), or of an Annex-B edge case (3- vs 4-byte start codes, trailing zeros, empty units) that only shows for particular frames - not the placement/offsets of samples.',
   'C02': 'Prefer a breakage of the mutual CONSISTENCY of table entry counts (stts / stsz / stsc / stco / ctts / stss) or of a box size for particular histories (for example many equal durations, equal composition offsets, exactly one sample, no keyframes after the first) in the progressive file.',
